@@ -379,3 +379,143 @@ Print Assumptions C01_base_mint_emits_next_id.
 Print Assumptions C01_base_ids_are_1_2_3.
 Print Assumptions C01_base_one_token_per_successful_mint.
 Print Assumptions C01_base_minted_ids.
+
+
+(* =====================================================================================
+   Part 3 — token-merge minter (contracts/minters/token-merge-minter; model
+   model/TokenMerge.v, the one C17 is stated over).  "Every minted token id lies in
+   1..=num_tokens and is minted at most once, mint-for delivers exactly the requested id or
+   fails, shuffle changes neither the set of remaining ids nor their number, the reported
+   mintable count always equals num_tokens minus minted minus burned, with no mint
+   succeeding at zero."  Mints are the deposit-triggered ones (ReceiveNft completing a
+   recipient's requirement), MintTo and MintFor; all statements are for every sender,
+   clock, funds, deposit ledger and every pseudo-random pick (oracle input `pick`).
+   The model keeps the remaining ids as a list (`tm_avail`), not the position table:
+   Shuffle, which permutes ids over the same positions, therefore leaves the model state
+   untouched (C01_tm_shuffle_preserves is immediate); that the real Shuffle keeps positions
+   and id set is checked on raw storage by the tie.  The 50-position pick window is not
+   modelled for this minter (a pick is legal when the id is still mintable).
+   Minted ids / burned counts are ghosts computed from what the history emits: the ids of
+   the Mint messages (`mint_ids`), and the ids leaving the table in a successful
+   BurnRemaining (`sstep`).  Statements only.
+   ===================================================================================== *)
+From LP Require Import TokenMerge TokenMergeProofs TokenMergeSupplyProofs.
+
+(* The supply invariant, for a collection of n tokens:
+   - the remaining ids are unique and all in 1..=n,
+   - the ids already handed to the collection are unique, in 1..=n, disjoint from the remaining ones,
+   - the reported mintable count is the number of remaining ids, and
+   - mintable + minted + burned = n. *)
+Theorem C01_tm_invariant_spelled_out : forall n (s : tm_state * sghost),
+  InvT n s <->
+  (tm_num_tokens (fst s) = n /\
+   NoDup (tm_avail (fst s)) /\ (forall x, In x (tm_avail (fst s)) -> 1 <= x <= n) /\
+   NoDup (sg_minted (snd s)) /\ (forall x, In x (sg_minted (snd s)) -> 1 <= x <= n) /\
+   (forall x, In x (sg_minted (snd s)) -> ~ In x (tm_avail (fst s))) /\
+   N.of_nat (length (tm_avail (fst s))) = tm_mintable (fst s) /\
+   tm_mintable (fst s) + N.of_nat (length (sg_minted (snd s))) + sg_burned (snd s) = n).
+Proof. exact InvT_spelled. Qed.
+
+(* it holds right after creation (remaining ids a permutation of 1..n, nothing minted or burned) *)
+Theorem C01_tm_holds_at_creation : forall n st,
+  tm_num_tokens st = n /\ tm_mintable st = n /\ Permutation (tm_avail st) (seqN n) ->
+  InvT n (st, sghost0).
+Proof. exact init_inv_tm. Qed.
+
+(* every successful call of any entry point preserves it (sstep = the call plus the ghost update;
+   a failed call changes nothing) *)
+Theorem C01_tm_step_preserves : forall n minter st g now op st' ms,
+  InvT n (st, g) -> TokenMerge.step minter now op st = Ok (st', ms) -> InvT n (sstep minter (st, g) (now, op)).
+Proof. exact step_inv_tm. Qed.
+
+(* hence it holds after every history of calls *)
+Theorem C01_tm_every_reachable_state : forall n minter h s, InvT n s -> InvT n (srun minter h s).
+Proof. exact srun_inv_tm. Qed.
+
+(* a minted id (by a deposit, MintTo or MintFor) lies in 1..=n, was still mintable, was never
+   minted before and is no longer mintable; a call mints at most one token *)
+Theorem C01_tm_minted_id_fresh_and_in_range : forall n minter st g now op st' ms t owner,
+  InvT n (st, g) -> TokenMerge.step minter now op st = Ok (st', ms) -> In (t, owner) (mint_ids ms) ->
+  1 <= t <= n /\ In t (tm_avail st) /\ ~ In t (sg_minted g) /\ ~ In t (tm_avail st') /\
+  mint_ids ms = [(t, owner)] /\
+  sg_minted (snd (sstep minter (st, g) (now, op))) = t :: sg_minted g.
+Proof. exact minted_id_fresh_tm. Qed.
+
+(* mint-for delivers exactly the requested id, to the requested recipient, or fails *)
+Theorem C01_tm_mint_for_exact : forall minter now caller tid r funds st st' ms,
+  TokenMerge.step minter now (TokenMerge.OMintFor caller tid r funds) st = Ok (st', ms) ->
+  ms = [TMint r tid] /\ 1 <= tid <= tm_num_tokens st /\ In tid (tm_avail st) /\ ~ In tid (tm_avail st').
+Proof. exact mint_for_exact_tm. Qed.
+
+(* shuffle changes neither the set of remaining ids nor their number, nor anything else
+   (immediate in this model, see the header) and fails when nothing is left *)
+Theorem C01_tm_shuffle_preserves : forall minter now caller funds st st' ms,
+  TokenMerge.step minter now (TokenMerge.OShuffle caller funds) st = Ok (st', ms) ->
+  st' = st /\ ms = [] /\ tm_mintable st <> 0.
+Proof. exact shuffle_preserves_tm. Qed.
+
+(* no mint of any kind succeeds at zero: MintTo / MintFor fail, and no call (in particular
+   no deposit) emits a Mint *)
+Theorem C01_tm_mint_at_zero_fails : forall minter now op st,
+  tm_mintable st = 0 ->
+  (match op with TokenMerge.OMintTo _ _ _ _ | TokenMerge.OMintFor _ _ _ _ => True | _ => False end) ->
+  TokenMerge.step minter now op st = Err.
+Proof. exact admin_mint_at_zero_tm. Qed.
+
+Theorem C01_tm_nothing_minted_at_zero : forall minter now op st st' ms,
+  tm_mintable st = 0 -> TokenMerge.step minter now op st = Ok (st', ms) -> mint_ids ms = [].
+Proof. exact mint_at_zero_tm. Qed.
+
+(* burn-remaining empties the table and zeroes the counter; the counter never goes up; so
+   nothing can be minted in any future after a successful burn-remaining (or sell-out) *)
+Theorem C01_tm_burn_remaining_zeroes : forall n minter now caller funds st g st' ms,
+  InvT n (st, g) -> TokenMerge.step minter now (TokenMerge.OBurnRemaining caller funds) st = Ok (st', ms) ->
+  tm_mintable st' = 0 /\ tm_avail st' = [] /\ ms = [] /\
+  sg_minted (snd (sstep minter (st, g) (now, TokenMerge.OBurnRemaining caller funds))) = sg_minted g /\
+  sg_burned (snd (sstep minter (st, g) (now, TokenMerge.OBurnRemaining caller funds))) = sg_burned g + tm_mintable st.
+Proof. exact burn_remaining_zero_tm. Qed.
+
+Theorem C01_tm_counter_never_increases : forall minter now op st st' ms,
+  TokenMerge.step minter now op st = Ok (st', ms) -> tm_mintable st' <= tm_mintable st.
+Proof. exact mintable_never_increases_tm. Qed.
+
+Theorem C01_tm_zero_is_forever : forall minter h st g,
+  tm_mintable st = 0 ->
+  tm_mintable (fst (srun minter h (st, g))) = 0 /\ sg_minted (snd (srun minter h (st, g))) = sg_minted g.
+Proof. exact zero_is_forever_tm. Qed.
+
+(* ---- non-vacuity: 3 tokens, requirement "one token of collection 21"; a deposit-triggered
+   mint, a shuffle, mint-for (twice), burn-remaining, mint-to; evaluated in the model ---- *)
+Definition tm_ex_s0 : tm_state := mkTm 5 1000 3 3 [(21, 1)] 50 0 500 3 [2; 3; 1] [] [].
+Definition tm_ex_calls : list (N * tm_op) :=
+  [ (2000, OReceive 21 11 None 101 3);                            (* deposit completes: mints the picked id 3 *)
+    (2001, TokenMerge.OShuffle 15 [mkCoin 0 500]);
+    (2002, TokenMerge.OMintFor 5 2 12 []);
+    (2003, TokenMerge.OMintFor 5 2 12 []);                        (* fails: sold *)
+    (2004, TokenMerge.OBurnRemaining 5 []);
+    (2005, TokenMerge.OMintTo 5 12 [] 1);                         (* fails: nothing left *)
+    (2006, OReceive 21 12 None 201 1) ].                          (* fails: completing deposit at zero *)
+
+Example C01_tm_ex_initial_state_meets_invariant : InvT 3 (tm_ex_s0, sghost0).
+Proof.
+  apply init_inv_tm. repeat split. cbn. change (Permutation [2; 3; 1] [1; 2; 3]).
+  apply Permutation_sym. apply (perm_trans (l' := [2; 1; 3])); [ apply perm_swap | apply perm_skip; apply perm_swap ].
+Qed.
+
+Example C01_tm_ex_history_evaluates :
+  let s := srun 7 tm_ex_calls (tm_ex_s0, sghost0) in
+  (tm_mintable (fst s), tm_avail (fst s), sg_minted (snd s), sg_burned (snd s)) = (0, [], [2; 3], 1).
+Proof. vm_compute. reflexivity. Qed.
+
+Print Assumptions C01_tm_invariant_spelled_out.
+Print Assumptions C01_tm_holds_at_creation.
+Print Assumptions C01_tm_step_preserves.
+Print Assumptions C01_tm_every_reachable_state.
+Print Assumptions C01_tm_minted_id_fresh_and_in_range.
+Print Assumptions C01_tm_mint_for_exact.
+Print Assumptions C01_tm_shuffle_preserves.
+Print Assumptions C01_tm_mint_at_zero_fails.
+Print Assumptions C01_tm_nothing_minted_at_zero.
+Print Assumptions C01_tm_burn_remaining_zeroes.
+Print Assumptions C01_tm_counter_never_increases.
+Print Assumptions C01_tm_zero_is_forever.
